@@ -9,7 +9,7 @@ find $dst/demo -type f \( -name 'moq' -o -name '*.test' -o -name 'faultexec' -o 
 cd /repo || exit 2
 [ -z "$(git status --porcelain --untracked-files=no)" ] || { echo "/repo dirty"; exit 2; }
 git apply $dst/patch.diff || exit 2
-trap 'git -C /repo checkout -- .' EXIT INT TERM
+trap 'git -C /repo checkout -- .; git -C /repo clean -fdq' EXIT INT TERM
 declare -A res
 for p in "$prop" "$@"; do
   out=$(cd /verif && VERIF_OUT=/tmp/seedout ./vcheck check -prop "$p" -tier quick 2>&1 | grep -v '^WARNING')
@@ -19,7 +19,7 @@ for p in "$prop" "$@"; do
   eval "lines_$p=\$v"
   echo "$id $p: $n violation(s): $(printf '%s' "$v" | head -1 | cut -c1-200)"
 done
-git -C /repo checkout -- .
+git -C /repo checkout -- .; git -C /repo clean -fdq
 python3 - "$dst" "$id" "$prop" "$needs" "$(for p in "$prop" "$@"; do eval "echo \"$p|${res[$p]}|\$lines_$p\""; echo '@@'; done)" "$(git -C /repo rev-parse --short HEAD)" <<'PY'
 import sys, json
 dst, sid, prop, needs, blob, head = sys.argv[1:7]
